@@ -54,8 +54,8 @@ def key(e, case):
     return "ages %s %s %s" % (case.get("kind"), e.get("ph"), e["_why"])
 
 
-def run(ctx, kinds):
-    """Returns (events, cases)."""
+def run(ctx, kinds, retain=False):
+    """Returns (events, cases). retain (C16): memory handed to / received from the library is compared after every phase."""
     if ctx.thorough:
         ctx.prove("AgesProofs")   # TLAPS: Ageless for the intended design after ANY number of operations
     ctx.model_check("Ages", "MC_Ages.cfg", workers=4)
@@ -82,7 +82,7 @@ def run(ctx, kinds):
             if (i + ctx.seed) % share:
                 continue
             for sc in scales:
-                beh.append({"kind": k, "sched": s, "n": max(8, ctx.pick(nq, nt) // sc)})
+                beh.append({"kind": k, "sched": s, "n": max(8, ctx.pick(nq, nt) // sc), "retain": retain})
     bpath = os.path.join(ctx.scratch, "ages-behaviours.json")
     vlib.json.dump(beh, open(bpath, "w"))
     ctx.build_harness()
